@@ -204,13 +204,28 @@ def _check_main(ctx, rep: Report):
     if not execs:
         bad.append("exec template not found")
     else:
-        js = [n for n in ast.walk(execs[0]) if isinstance(n, ast.JoinedStr)]
+        from .base import with_callees
+        from .c16 import _guards_of
+        tmpl_fn, js = b, [n for n in ast.walk(execs[0]) if isinstance(n, ast.JoinedStr)]
+        if not js:      # the source text may be rendered by a private method of the builder
+            for g_ in with_callees(ctx.p, b, 1):
+                cand = [n for n in ast.walk(g_.node) if isinstance(n, ast.JoinedStr) and "return implementation(" in ast.unparse(n)]
+                if cand and g_ is not b:
+                    tmpl_fn, js = g_, cand
         flat = []
         for part in (js[0].values if js else []):
             if isinstance(part, ast.Constant):
                 flat.append(("text", part.value))
             else:
-                flat.append(("expr", ast.unparse(part.value)))
+                src_ = ast.unparse(part.value)
+                if isinstance(part.value, ast.Name):
+                    # a placeholder variable: reconstruct "<text> if <guards> else ''" from its assignments
+                    asg = [n for n in walk_own(tmpl_fn.node) if isinstance(n, ast.Assign) and len(n.targets) == 1 and ast.unparse(n.targets[0]) == part.value.id
+                           and isinstance(n.value, ast.Constant) and isinstance(n.value.value, str)]
+                    pos_ = [n for n in asg if "validate_attrs(kwargs)" in n.value.value]
+                    if pos_ and all(n.value.value == "" for n in asg if n not in pos_):
+                        src_ = "'validate_attrs(kwargs)' if " + " and ".join(_guards_of(tmpl_fn.node, pos_[0])) + " else ''"
+                flat.append(("expr", src_))
         i_val = next((i for i, p in enumerate(flat) if p[0] == "expr" and "validate_attrs(kwargs)" in p[1]), None)
         i_impl = next((i for i, p in enumerate(flat) if p[0] == "text" and "return implementation(" in p[1]), None)
         if i_val is None or i_impl is None or i_val > i_impl:
